@@ -27,6 +27,28 @@ Theorem C03_code_process : forall g s evs, wf_group g -> Pre s ->
 Proof. exact mid_parser_process. Qed.
 Print Assumptions C03_code_process.
 
+(* the public entry point: rdsparser_parse (src/rdsparser.c) is that function, and the model's step
+   for OParse is `process` *)
+Theorem C03_code_parse : forall g s evs, wf_group g -> Pre s ->
+  exists new,
+    m_parse
+      (d_af (temp s)) (getf SCountry (temp s)) (getf SEcc (temp s)) (getf SMs (temp s)) (getf SPi (temp s))
+      (getf SPty (temp s)) (getf STa (temp s)) (getf STp (temp s))
+      (d_af (used s)) (getf SCountry (used s)) (getf SEcc (used s)) (getf SMs (used s)) (getf SPi (used s))
+      (getf SPty (used s)) (getf STa (used s)) (getf STp (used s))
+      (b2z (ext s)) (cb s FAF) (cb s FCOUNTRY) (cb s FCT) (cb s FECC) (cb s FMS) (cb s FPI) (cb s FPS) (cb s FPTY)
+      (cb s FPTYN) (cb s FRT) (cb s FTA) (cb s FTP) (corr_tab s) evs (last_rt s) (prog_tab s)
+      (contents (ps s)) (levels (ps s)) (contents (ptyn s)) (levels (ptyn s))
+      (contents (rt0 s)) (levels (rt0 s)) 64 (contents (rt1 s)) (levels (rt1 s)) 64 (ud s)
+      (ga g) (gb g) (gc g) (gd g) (ea g) (eb g) (ec g) (ed g)
+    = out_view (fst (step conv_u lut_g s (OParse g))) (evs ++ new)
+    /\ map ev_view new = map ev_call (snd (step conv_u lut_g s (OParse g))).
+Proof.
+  intros g s evs W P. destruct (mid_parser_process g s evs W P) as [new [E V]].
+  exists new. split; [|exact V]. unfold m_parse. cbv zeta. rewrite E. reflexivity.
+Qed.
+Print Assumptions C03_code_parse.
+
 (* the hypothesis Pre is met by every reachable state (buffer lengths: the invariant Inv; AF
    bitmaps: reach_af_wf) whose accepted PI is a 16-bit value or "unknown" ... *)
 Theorem C03_code_process_reachable : forall h s g evs, reach conv_u lut_g h s -> wf_group g ->
